@@ -456,7 +456,6 @@ func c17Case(w *core.Worker, i int) {
 		}
 	}
 	t := genTable(r, "t", n, []colProfile{{Kind: "ints", Vals: pvals, NullPct: 10}, {Kind: "ints", Vals: []string{"1", "2", "3", "4", "5"}, NullPct: 15}, {Kind: "ints", Vals: []string{"0", "1", "2", "5", "7", "-3", "10"}, NullPct: 25}}, []string{"p", "o", "v"})
-	core.WriteFiles(w.Work, map[string]string{"t.csv": t.CSV()})
 	var rows []c17Row
 	pi := func(c *string) *int {
 		if c == nil {
@@ -468,6 +467,19 @@ func c17Case(w *core.Worker, i int) {
 	for k, row := range t.Rows {
 		rows = append(rows, c17Row{id: k + 1, p: pi(row[1]), o: pi(row[2]), v: pi(row[3])})
 	}
+	// the same numbers in several spellings (integer and float typed) in the ordering column: peers are decided by value
+	// (not in the partitioning column: whether 2 and 2.0 share a bucket is left open by the manual, see C04)
+	if i%3 == 1 {
+		for _, row := range t.Rows {
+			for _, j := range []int{2} {
+				if row[j] != nil && r.P(35) {
+					row[j] = core.Sp(*row[j] + []string{".0", ".00", "e0"}[r.Intn(3)])
+				}
+			}
+		}
+		w.Count("cases_with_mixed_number_spellings", 1)
+	}
+	core.WriteFiles(w.Work, map[string]string{"t.csv": t.CSV()})
 	s, err := core.NewSess(core.SessOpts{Dir: w.Work, CPU: cpu})
 	if err != nil {
 		w.Inconclusive(err.Error())
